@@ -33,9 +33,9 @@ ASSUMPTIONS = [
     'measurement values are single precision by the IOD (FloatingPointValues is OF): the oracle compares with float32(input)',
     'no negative zero among z coordinates (numpy.unique identifies -0.0 and 0.0; cell equality in the model is identity)',
     'NaN payloads are not distinguished: an absent measurement is any NaN',
-    'the caller does not modify the LIST object get_graphic_data hands out (it is the cached list: a pop() changes the number of annotations '
-    'reported) nor, after construction, the arrays it handed to the constructor (a fresh group returns those very arrays): both observed on the '
-    'unchanged tree, not claimed; every ARRAY a parsed object hands out is either read-only or a fresh copy (scribbled over between reads)',
+    'the caller does not modify, after construction, the arrays it handed to the constructor (a fresh group returns those very arrays: open '
+    'finding C18-accessor-hands-out-internals); every ARRAY a parsed object hands out is read-only or a fresh copy and every LIST is a new list '
+    '(scribbled over / emptied between reads)',
 ]
 MODELLED_NOT_VERIFIED = ['numpy concatenate/flatten/tobytes/frombuffer/split/unique', 'pydicom writer and reader (OF/OD/OL/FD elements)',
                          'copy.deepcopy', 'SOPClass base constructor and the attribute-table shim']
@@ -319,6 +319,8 @@ def _scribble(res):
                 n += 1
             except Exception:  # noqa: BLE001
                 pass
+    if isinstance(res, list):
+        del res[:]              # ... and empties the list it was given
     return n
 
 
@@ -1354,8 +1356,8 @@ def _witness_wrong_coordinate_type():
 
 
 def _witness_hands_out_internals():
-    """(a) a freshly built group returns the caller's own arrays and list: editing them afterwards changes what the object reports while
-    the encoded attributes keep the original; (b) the list a parsed group hands out is its cached list: pop() loses an annotation"""
+    """(a) a freshly built group returns the caller's own arrays: editing them afterwards changes what the object reports while
+    the encoded attributes keep the original; (b) [fixed in /repo] the list a parsed group hands out was its cached list"""
     import highdicom as hd
     from highdicom.ann import AnnotationGroup
     data = [np.array([[1.0, 2.0]], np.float32), np.array([[3.0, 4.0]], np.float32)]
